@@ -273,14 +273,15 @@ class Equation:
         """
         Return a list of ranks in the tensor
         """
+        # Collect the ranks in the order they are written, whether or not the
+        # index variable carries a coefficient
         str_ranks = []
-        for ijust in ranks.find_data("ijust"):
-            rank = ParseUtils.next_str(ijust).upper()
-            str_ranks.append(rank)
+        for iterm in ranks.iter_subtrees_topdown():
+            if iterm.data == "ijust":
+                str_ranks.append(ParseUtils.next_str(iterm).upper())
 
-        for itimes in ranks.find_data("itimes"):
-            rank = str(itimes.children[1]).upper()
-            str_ranks.append(rank)
+            elif iterm.data == "itimes":
+                str_ranks.append(str(iterm.children[1]).upper())
 
         return str_ranks
 
